@@ -28,6 +28,7 @@ type Case struct {
 	Rule    string        `json:"rule"`
 	Detail  string        `json:"detail"`
 	L       int           `json:"doc_len"`
+	Seq     *rcorpus.Job  `json:"seq,omitempty"` // Type "seq": the whole writer-kind sequence
 }
 
 type finding struct {
@@ -53,14 +54,21 @@ type finding struct {
 //	mc          context cancelled mid-render: err != nil => errors.Is(err, context.Canceled)
 //	cc          context cancelled before the start: err != nil, errors.Is(Canceled), zero bytes
 //	fe          the writer's Flush() error was called and failed => err != nil, errors.Is(sentinel)
-//	carry       after the faulted render, same goroutine: the same and another component
-//	            render normally to exactly their D
+//	carry       after the faulted render, same goroutine: the same component rendered into the
+//	            SAME writer object (which has recovered; recording restarted) and another
+//	            component rendered into a new writer both deliver exactly their D
+//	panic       Render panicked
+//	side        a code component rendered its child block into a writer of its own (side
+//	            writer, block document Ds): side bytes are a prefix of Ds; Render nil => side
+//	            received Ds exactly; side writer fault at offset k of Ds (types "hard@side",
+//	            "short@side", "zero@side"): same wrap rules as for the main writer, and the main
+//	            writer still holds a prefix of D
 //
 // Not demanded of the two unbuffered library roots (templ.Raw, ComponentScript rendered
 // straight into the caller's writer): detection of contract-violating short writes
 // (n < len, nil error) and a context check of their own; they are still held to
 // hard-wrap, prefix (hard errors, failing sites) and carry.
-func judge(typ string, ev *rcorpus.Event, comp *rcorpus.Comp, ref, other *rcorpus.Ref, sites map[string]rcorpus.Site) []finding {
+func judge(typ string, ev *rcorpus.Event, comp *rcorpus.Comp, ref, other, sref *rcorpus.Ref, sites map[string]rcorpus.Site) []finding {
 	var fs []finding
 	add := func(rule, format string, a ...any) { fs = append(fs, finding{rule, fmt.Sprintf(format, a...)}) }
 	o := ev.Out
@@ -68,6 +76,17 @@ func judge(typ string, ev *rcorpus.Event, comp *rcorpus.Comp, ref, other *rcorpu
 		return []finding{{"log", "event without output"}}
 	}
 	L := ref.L()
+	if o.Err != nil && o.Err.Panic {
+		add("panic", "Render panicked: %s", o.Err.Msg)
+	}
+	if ev.Side != nil && sref != nil {
+		if !sref.IsPrefix(ev.Side) {
+			add("side-prefix", "side writer received %d bytes (hash %s) that are not Ds[:%d] (|Ds|=%d)", ev.Side.N, ev.Side.H, ev.Side.N, sref.L())
+		}
+		if o.Err == nil && !sref.IsWhole(ev.Side) {
+			add("side-nil-whole", "Render returned nil but the side writer received %d of %d bytes of the child block", ev.Side.N, sref.L())
+		}
+	}
 	// unbuffered library root + a writer that breaks the io.Writer contract
 	// (n < len(p) with a nil error): nothing between the component and the
 	// writer can notice; observed and counted, not judged
@@ -93,6 +112,21 @@ func judge(typ string, ev *rcorpus.Event, comp *rcorpus.Comp, ref, other *rcorpu
 		}
 		if typ != "hard" && o.Err != nil && !o.Err.IsShort {
 			add("short-wrap", "%s write after %d bytes; Render returned %v (errors.Is(err, io.ErrShortWrite) must hold)", typ, ev.K, errText(o.Err))
+		}
+	case "hard@side", "short@side", "zero@side":
+		sd := ev.Side
+		if sd == nil {
+			add("log", "side fault event without side output")
+			break
+		}
+		if !sd.Fired && o.Err != nil {
+			add("no-fault", "no side fault fired (k=%d) but Render returned %q", ev.K, msg)
+		}
+		if typ == "hard@side" && sd.Fired && (o.Err == nil || !o.Err.IsInjected) {
+			add("side-hard-wrap", "side writer failed after %d bytes of the child block; Render returned %v (errors.Is(err, injected) must hold)", ev.K, errText(o.Err))
+		}
+		if typ != "hard@side" && o.Err != nil && !o.Err.IsShort {
+			add("side-short-wrap", "%s of the side writer after %d bytes; Render returned %v (errors.Is(err, io.ErrShortWrite) must hold)", typ, ev.K, errText(o.Err))
 		}
 	case "xf":
 		s, ok := sites[ev.Site]
@@ -130,10 +164,10 @@ func judge(typ string, ev *rcorpus.Event, comp *rcorpus.Comp, ref, other *rcorpu
 		}
 	}
 	if ev.C1 != nil && (ev.C1.Err != nil || !ref.IsWhole(ev.C1)) {
-		add("carry-same", "render of the same component after the failure: err=%v, %d of %d bytes, whole=%v", errText(ev.C1.Err), ev.C1.N, L, ref.IsWhole(ev.C1))
+		add("carry-same", "render of the same component into the same writer object after the failure: err=%v, %d of %d bytes, whole=%v", errText(ev.C1.Err), ev.C1.N, L, ref.IsWhole(ev.C1))
 	}
 	if ev.C2 != nil && other != nil && (ev.C2.Err != nil || !other.IsWhole(ev.C2)) {
-		add("carry-other", "render of another component after the failure: err=%v, %d of %d bytes, whole=%v", errText(ev.C2.Err), ev.C2.N, other.L(), other.IsWhole(ev.C2))
+		add("carry-other", "render of another component into a new writer after the failure: err=%v, %d of %d bytes, whole=%v", errText(ev.C2.Err), ev.C2.N, other.L(), other.IsWhole(ev.C2))
 	}
 	return fs
 }
@@ -169,6 +203,11 @@ type shardResult struct {
 	samples                     []any
 	sampled                     map[string]bool
 	expected, complete          int
+	sidePoints, sideFired       int64
+	sumLs                       int64
+	seqs, seqSteps, seqFaults   int
+	seqGC                       int
+	seqKinds                    map[string]int
 }
 
 var otherPool = []string{"Text", "Attrs", "ClassAttr", "Oncey", "UseWrap", "ScriptCall", "ToGoHTML", "OnClick"}
